@@ -1423,7 +1423,10 @@ def interaction_match(molecule, interaction, template_interaction):
             atom_attrs = [{}, ] * len(template_interaction.atoms)
         nodes = [molecule.nodes[atom] for atom in interaction.atoms]
         for atom, template_atom in zip(nodes, atom_attrs):
-            if not attributes_match(atom, template_atom):
+            # The order of an atom is part of the link's structure (it is
+            # honoured through the atoms of the interaction), it is not an
+            # attribute of the atoms of a molecule.
+            if not attributes_match(atom, template_atom, ignore_keys=('order',)):
                 return False
         return attributes_match(interaction.meta, template_interaction.meta)
     return False
